@@ -1098,6 +1098,12 @@ func (fr *frame) addEdge(from, to *ssa.BasicBlock, st *State, cond string, in ma
 			if _, skip := fx.g.cs.Unproved[fr.c.Func][inv.Label]; skip && inv.Label != "" {
 				continue
 			}
+			if reason, skip := fx.g.cs.Unproved[fr.c.Func][inv.Label+s.peekSuffix("inv-keep", label)]; skip && inv.Label != "" {
+				// unproved on this back edge only (LABEL~N, N counted from 0 in generation order)
+				s.Assumed = appendUnique(s.Assumed, fmt.Sprintf("%s/inv-keep:%s%s is not proved on this back edge (%s)", fr.c.Func, inv.Label, s.peekSuffix("inv-keep", label), reason))
+				s.skipName("inv-keep", label)
+				continue
+			}
 			s.oblig("inv-keep", label, fr.c.tagsFor(inv), cond, t, pos, inv.Src)
 		}
 		env.prevVals = saved
